@@ -194,8 +194,10 @@ def searchsorted_harness(K, lead):
         if rng.uniform() < 0.5 and K > 1:
             x = locs[..., rng.integers(0, K + 1)].copy()
         return {"locs": locs, "x": x}
-    return Harness(f"searchsorted[K={K},lead={'x'.join(map(str, lead))}]", run, post, native_call=native_call, native_clauses=native_clauses,
-                   sample=sample, functions=[TU.searchsorted])
+    hn = Harness(f"searchsorted[K={K},lead={'x'.join(map(str, lead))}]", run, post, native_call=native_call, native_clauses=native_clauses,
+                 sample=sample, functions=[TU.searchsorted])
+    hn.clauses32 = True      # the index specification is also evaluated in float32 (the last-bin closure is a rounding question)
+    return hn
 
 
 def cbrt_harness():
@@ -297,7 +299,8 @@ def temperature_harness():
 
 
 def typechecks_harness():
-    vals = [True, False, 0, 1, -1, 2, 3, 6, 8, 2.0, -3.5, "3", None, [1], 1024, 1023]
+    from fractions import Fraction
+    vals = [True, False, 0, 1, -1, 2, 3, 6, 8, 2.0, -3.5, 0.0, -0.0, 1.0, 0j, Fraction(0), Fraction(2), "3", "", None, [1], [], 1024, 1023]
     spec = {
         "is_bool": lambda v: type(v) is bool,
         "is_int": lambda v: isinstance(v, int),
@@ -312,9 +315,9 @@ def typechecks_harness():
     def post(h, ctx, got):
         for n, f in spec.items():
             for v, g in zip(vals, got[n]):
-                ensure(h, ctx, "C20.typecheck", z3.BoolVal(bool(g) == bool(f(v))), meta={"fn": n, "value": repr(v), "got": repr(g)})
+                ensure(h, ctx, "C20.typecheck", z3.BoolVal(g is f(v) or (isinstance(g, bool) and g == f(v))), meta={"fn": n, "value": repr(v), "got": repr(g)})
 
     def native_clauses(h, inp, res):
-        return {"C20.typecheck": all(bool(g) == bool(spec[n](v)) for n in spec for v, g in zip(vals, res[n]))}
+        return {"C20.typecheck": all(isinstance(g, bool) and g == spec[n](v) for n in spec for v, g in zip(vals, res[n]))}
     return Harness("typechecks[]", run, post, native_call=lambda h, inp: run(None, None), native_clauses=native_clauses, sample=lambda h, rng: {},
                    functions=[TC.is_bool, TC.is_int, TC.is_positive_int, TC.is_nonnegative_int, TC.is_power_of_two], check_defined=False)
